@@ -709,7 +709,7 @@ impl C08 {
             rep.count("gen.zero_fault", 1);
         }
         // unusual-but-legal whole documents in place of a data / test / template file
-        if r.chance(1, 5) {
+        if r.chance(1, 3) {
             const DOCS: &[&[u8]] = &[
                 b"# only a comment\n", b"---\n", b"--- \n...\n", b"{}", b"[]", b"null", b"~", b"1", b"\"just a string\"", b"- a\n- b\n", b"---\n# c\n---\n",
                 b"a: &x [1, 2]\nb: *x\n", b"a: &x {k: 1}\nb:\n  <<: *x\n  j: 2\n", b"? [complex, key]\n: value\n", b"a: !!binary aGVsbG8=\n", b"a: !Ref b\nc: !GetAtt d.e\nf: !Sub '${g}'\n",
@@ -722,6 +722,7 @@ impl C08 {
                 b"a: \"nul\\0byte\"\nb: 'x'\n", b"a: \x00\n", b"<<: {a: 1}\nb: 2\n", b"a: &m {x: 1}\nb: {<<: [*m, *m], y: 2}\n", b"---\na: 1\n---\nb: 2\n...\n---\n", b"--- !!map\na: 1\n", b"a: !!python/object:os.system x\n",
                 b"a: 9223372036854775807\nb: 9223372036854775808\nc: -9223372036854775808\nd: -9223372036854775809\ne: 1.7976931348623157e308\nf: 1.8e308\ng: 4.9e-324\nh: 0.1e-400\n", b"{\"a\": 9223372036854775808, \"b\": -9223372036854775809, \"c\": 1.8e308, \"d\": 18446744073709551615, \"e\": 18446744073709551616}",
                 b"a: 0x7fffffffffffffff\nb: 0xffffffffffffffffff\nc: 0o7777777777777777777777\nd: 1_0\ne: +1\nf: 1e3\ng: .5\nh: 5.\ni: 0b101\nj: 1:30\n", b"a: yes\nb: No\nc: ON\nd: off\ne: y\nf: n\ng: ~\nh: Null\ni: TRUE\n",
+                b"a: +\nb: [-]\nc: !Join [-, [x, y]]\nd: .\ne: -.\nf: +.\ng: e\nh: -e1\ni: 0x\nj: 0o\nk: _\nl: 1_\nm: -_1\nn: ++1\no: --1\np: 1e\nq: 1e+\nr: .e1\ns: \"\"\nt: ''\n", b"[+, -, ., ~, '', -0, +0, 0., .0, -.0, 1., .inf, -.INF, .NaN, NaN, inf, Infinity, 0e0, 1E400]\n",
                 b"Resources: 7\n", b"Resources: []\n", b"Resources:\n  A: 5\n", b"Resources:\n  A:\n    Properties:\n      P: 1\n", b"Resources:\n  A:\n    Type: 5\n    Properties:\n      P: 1\n",
                 b"Resources:\n  A:\n    Type: [a]\n    Properties: {P: {Q: [1, {R: null}]}}\n", b"Resources:\n  A:\n    Type: AWS::X::Y\n    Properties: [1, 2]\n", b"{\"Resources\": {\"A\": {\"Type\": \"AWS::X::Y\", \"Properties\": {\"P\": \"a\\nb\", \"Q\": \"\\\"q\\\"\"}}}}",
             ];
